@@ -94,6 +94,8 @@ def tsc_case(run, tsc, rng, k):
     wkind = ['none', 'ones', 'int', 'random', 'zeros'][k % 5]
     if exact and wkind == 'random':
         wkind = 'int'
+    if k % 7 == 6 and N >= 2:
+        wkind = 'signed'  # data-minus-randoms style: weights of both signs, cancelling exactly in half of the cases
     wdt = pdt if (k % 29 or run.quick) else (np.float64 if pdt == np.float32 else np.float32)
     if wkind == 'none':
         w = None
@@ -103,6 +105,14 @@ def tsc_case(run, tsc, rng, k):
         w = rng.integers(0, 5, N).astype(wdt)
     elif wkind == 'zeros':
         w = np.zeros(N, dtype=wdt)
+    elif wkind == 'signed':
+        w = rng.choice(np.array([-2.0, -1.0, 1.0, 2.0]), N)
+        if k % 2 == 0:
+            w[N // 2 :] = 0
+            w[N // 2 : 2 * (N // 2)] = -w[: N // 2]  # total exactly 0
+            if N % 2:
+                w[-1] = 0
+        w = w.astype(wdt)
     else:
         w = rng.uniform(0, 3, N).astype(wdt)
     coord = k % 3
@@ -214,7 +224,7 @@ def tsc_case(run, tsc, rng, k):
             if compare(run, g2, ref2, tol_grid(refabs2, shape, buf.dtype.type, gdt, npart=(N if gdt == np.float32 else 0)), dict(desc, second_call_same_arrays=True), 'tsc-state-between-calls'):
                 return
     # non-negativity for non-negative weights
-    if pre is None and out.min() < 0:
+    if pre is None and wkind != 'signed' and out.min() < 0:
         return run.violation('tsc-negative-deposit', dict(min=float(out.min()), **desc))
     # total weight
     tot = float(N if w is None else w.astype(np.float64).sum())
